@@ -172,7 +172,8 @@ DeactPatch == /\ pc = "deactpatch"
 Nums == {snap[d].num : d \in ExSet(snap)}
 NewNum == IF snap[cur].ex /\ ~(snap[cur].num < Max(Nums) \/ Max(Nums) = 0) THEN snap[cur].num ELSE Max(Nums) + 1
 \* the GC victim: lowest-numbered listed revision (first in list order among equals)
-Cands == IF FixGC THEN ExSet(snap) \ {cur} ELSE ExSet(snap)
+\* (a revision that another owner controls is not ours to delete)
+Cands == IF FixGC THEN {d \in ExSet(snap) \ {cur} : snap[d].ctrl # "foreign"} ELSE ExSet(snap)
 Lowest(S) == LET m == Min({snap[d].num : d \in S}) IN
              DSeq[Min({Idx(d) : d \in {x \in S : snap[x].num = m}})]
 GcWanted == ppkg.limit # -1 /\ ppkg.limit # 0 /\ Cardinality(ExSet(snap)) > ppkg.limit + 1 /\ Cands # {}
